@@ -40,6 +40,7 @@ type ExprCtx struct {
 	st     *State
 	old    *State
 	vars   map[string]Binding
+	entry  map[string]Binding // the unit's parameters at entry: what their names mean inside old(...)
 	pkg    *types.Package
 	assume bool
 	depth  int
@@ -828,6 +829,18 @@ func (c *ExprCtx) call(x *ast.CallExpr) TV {
 		}
 		n := *c
 		n.st = c.old
+		if len(c.entry) > 0 {
+			// a parameter reassigned in the body (sess = nil) still names its entry value in old(...)
+			n.vars = make(map[string]Binding, len(c.vars))
+			for k, v := range c.vars {
+				n.vars[k] = v
+			}
+			for k, v := range c.entry {
+				if !strings.HasPrefix(k, "arg") {
+					n.vars[k] = v
+				}
+			}
+		}
 		return n.eval(x.Args[0])
 	case "ite":
 		cond := c.boolOf(c.eval(x.Args[0]))
